@@ -8,6 +8,7 @@ import sys
 
 def main():
     plan_path, variant, out_path = sys.argv[1], int(sys.argv[2]), sys.argv[3]
+    os.environ["RLSIM_LOG_KEEP"] = "20000"
     from rlsim import core
 
     core.setup_env()
